@@ -77,13 +77,26 @@ func (c *TCPConn) Has(kind string) (time.Duration, bool) {
 	return 0, false
 }
 
-func (c *TCPConn) Peer() *TCPConn       { return c.peer }
-func (c *TCPConn) LocalAddr() net.Addr  { return c.local }
-func (c *TCPConn) RemoteAddr() net.Addr { return c.remote }
-func (c *TCPConn) Unread() int          { return len(c.rbuf) }
+func (c *TCPConn) Peer() *TCPConn { return c.peer }
+func (c *TCPConn) LocalAddr() net.Addr {
+	if c == nil {
+		return nil
+	}
+	return c.local
+}
+func (c *TCPConn) RemoteAddr() net.Addr {
+	if c == nil {
+		return nil
+	}
+	return c.remote
+}
+func (c *TCPConn) Unread() int { return len(c.rbuf) }
 
 //go:norace
 func (c *TCPConn) Read(p []byte) (int, error) {
+	if c == nil {
+		return 0, syscall.EINVAL
+	}
 	simrt.Yield()
 	for {
 		if c.closed {
@@ -131,6 +144,9 @@ func (c *TCPConn) Read(p []byte) (int, error) {
 
 //go:norace
 func (c *TCPConn) Write(p []byte) (int, error) {
+	if c == nil {
+		return 0, syscall.EINVAL
+	}
 	simrt.Yield()
 	total := 0
 	for {
@@ -217,6 +233,9 @@ func (c *TCPConn) WriteTo(w io.Writer) (int64, error) {
 
 //go:norace
 func (c *TCPConn) CloseRead() error {
+	if c == nil {
+		return syscall.EINVAL
+	}
 	simrt.Yield()
 	if c.closed {
 		return opErr("close", "tcp", c.local, net.ErrClosed)
@@ -236,6 +255,9 @@ func (c *TCPConn) CloseRead() error {
 
 //go:norace
 func (c *TCPConn) CloseWrite() error {
+	if c == nil {
+		return syscall.EINVAL
+	}
 	simrt.Yield()
 	if c.closed {
 		return opErr("close", "tcp", c.local, net.ErrClosed)
@@ -253,6 +275,9 @@ func (c *TCPConn) CloseWrite() error {
 
 //go:norace
 func (c *TCPConn) Close() error {
+	if c == nil {
+		return syscall.EINVAL
+	}
 	simrt.Yield()
 	if c.closed {
 		return opErr("close", "tcp", c.local, net.ErrClosed)
@@ -295,12 +320,18 @@ func (c *TCPConn) Abort() {
 
 //go:norace
 func (c *TCPConn) SetDeadline(t time.Time) error {
+	if c == nil {
+		return syscall.EINVAL
+	}
 	c.SetReadDeadline(t)
 	return c.SetWriteDeadline(t)
 }
 
 //go:norace
 func (c *TCPConn) SetReadDeadline(t time.Time) error {
+	if c == nil {
+		return syscall.EINVAL
+	}
 	if c.closed {
 		return opErr("set", "tcp", c.local, net.ErrClosed)
 	}
@@ -313,6 +344,9 @@ func (c *TCPConn) SetReadDeadline(t time.Time) error {
 
 //go:norace
 func (c *TCPConn) SetWriteDeadline(t time.Time) error {
+	if c == nil {
+		return syscall.EINVAL
+	}
 	if c.closed {
 		return opErr("set", "tcp", c.local, net.ErrClosed)
 	}
